@@ -526,10 +526,18 @@ impl TryFrom<NaiveDateTime> for IntervalDT {
 
     #[inline]
     fn try_from(dt: NaiveDateTime) -> Result<Self> {
+        // A parsed fraction with more than six digits may have been rounded up to a full
+        // second (`usec == 1_000_000`): carry it into the higher fields, as `Time` and
+        // `Timestamp` do, instead of rejecting it.
+        if dt.usec > USECONDS_MAX + 1 {
+            return Err(Error::InvalidFraction);
+        }
+        let whole = IntervalDT::try_from_dhms(dt.day, dt.hour, dt.minute, dt.sec, 0)?;
+        let interval = IntervalDT::try_from_usecs(whole.usecs() + dt.usec as i64)?;
         if dt.negative {
-            Ok(IntervalDT::try_from_dhms(dt.day, dt.hour, dt.minute, dt.sec, dt.usec)?.negate())
+            Ok(interval.negate())
         } else {
-            IntervalDT::try_from_dhms(dt.day, dt.hour, dt.minute, dt.sec, dt.usec)
+            Ok(interval)
         }
     }
 }
